@@ -28,22 +28,35 @@ class SshdFamily(Family):
         from .fam_handoff import HandoffFamily
         return HandoffFamily()
 
+    # … and through the syslog ingester: "the daemon" receives the message framed by rsyslog; the framed path must yield
+    # the very event the direct call yields (C07's check, on C06's field values)
+    def _c07(self):
+        return C07Family()
+
     def modes_for(self, c):
         if c.get("sessions"):
             return (["handoff"], ["handoff"])
+        if c.get("framed"):
+            return (["c07"], ["c07"])
         return (self.harness_mode, self.driver_args)
 
     def impl_obs_for(self, c, raw):
+        if c.get("framed"):
+            return self._c07().impl_obs_for(c, raw)
         return self._ho().impl_obs(raw) if c.get("sessions") else raw
 
     def harness_line(self, c):
         if c.get("sessions"):
             return self._ho().harness_line(c)
+        if c.get("framed"):
+            return self._c07().harness_line(c)
         return G.case_line(c["id"], c, with_form=False)
 
     def driver_line(self, c, impl_obs):
         if c.get("sessions"):
             return self._ho().driver_line(c, impl_obs)
+        if c.get("framed"):
+            return self._c07().driver_line(c, impl_obs)
         s = G.case_line(c["id"], c, with_form=True)
         if impl_obs is not None:
             s += " obs=" + impl_obs
@@ -97,7 +110,9 @@ class SshdFamily(Family):
             ho = self._ho()
             dm = [dict(ho.gen(rng, "d", 6), form=None, fields=None, pid="", line="", ok="ok", h="ready") for _ in range(3 * n)]
             self.rule += "; plus %d runs of the daemon built from the working tree (every event must carry this node's name and machine id)" % len(dm)
-            return G.form_cases(rng, 6300 * n) + G.long_cases(rng, 18 * n) + dm
+            fr = [dict(c, framed=True) for c in self._c07()._prep(G.form_cases(rng, 1500 * n, adversarial_every=3), rng)]
+            self.rule += "; plus %d messages framed '<pid> <msg>\\n' through SyslogIngester.Process (same event as the direct call)" % len(fr)
+            return G.form_cases(rng, 6300 * n) + G.long_cases(rng, 18 * n) + dm + fr
         if p == "C17":
             self.rule = "invalid-user / failed-password / max-attempts forms with client-chosen names (spaces, ' from ', ' port ', embedded fragments) x addresses x ports"
             return G.form_cases(rng, 6000 * n, forms=G.C17_FORMS, adversarial_every=1) + G.form_cases(rng, 1500 * n, forms=G.C17_FORMS)
